@@ -8,7 +8,7 @@
     index ([index], behind the per-owner queries and balances) and the per-class supply counter
     ([total_supply]).  [burned_in s steps c t] = some burn of token [(c, t)] succeeds inside the
     history [steps] run from [s]. *)
-From Irismod Require Import Nft.Model Nft.Proofs.
+From Irismod Require Import Nft.Model Nft.Proofs Nft.Check Nft.Sound.
 
 (** Every NFT has exactly one owner at all times: in every reachable state a token exists iff
     an owner record exists for it; the owner index lists (owner, class, id) exactly for the
@@ -165,6 +165,19 @@ Theorem rejected_step_changes_nothing :
 Proof. exact rejected_changes_nothing. Qed.
 Print Assumptions rejected_step_changes_nothing.
 
+(** The checker is sound for the model: the decidable predicates that the correspondence check
+    evaluates on the IMPLEMENTATION's observations (agreement with the model, and the seven
+    clauses of C14 on two consecutive observations) hold of the MODEL's own trace — the
+    observations computed from the model state, balances listed for any duplicate-free list of
+    actors — for every history whose recipients are among the actors: the checker answers
+    (-1, -1, 0).  So an alarm always means the implementation showed something the model does not. *)
+Theorem model_passes_check :
+  forall (actors : list addr), NoDup actors ->
+  forall (steps : list step), Forall (step_covered actors) steps ->
+    check_case (model_trace actors init steps) = (-1, -1, 0).
+Proof. exact model_passes_check_lemma. Qed.
+Print Assumptions model_passes_check.
+
 (** ** The hypotheses are satisfiable on a non-trivial history *)
 Definition ex_hist : list step :=
   [ Msg (IssueDenom 0 1 true true 0 [2; 0; 0; 0; 0; 0]);     (* actor 0: class 1, mint- and update-restricted *)
@@ -197,11 +210,14 @@ Example c14_nonvacuous :
   /\ get (2, 1) (nfts s) = Some (6, -2, 7, 0) /\ get_owner s 2 1 = Some 3
   /\ total_supply s 1 = 2 /\ n_tokens s 1 = 2 /\ balance s 0 1 = 2 /\ balance s 3 2 = 1
   /\ get 1 (classes s) = Some (3, true, true, 0, [2; 0; 0; 0; 0; 0])
+  /\ check_case (model_trace [0; 1; 2; 3] init ex_hist) = (-1, -1, 0)
+  /\ Forall (step_covered [0; 1; 2; 3]) ex_hist
   /\ burned_in init ex_hist 1 1
   /\ ~ burned_in (run init (firstn 5 ex_hist)) (firstn 13 (skipn 5 ex_hist)) 1 1.
 Proof.
   cbv zeta. split; [exists ex_hist; reflexivity|].
   repeat (split; [vm_compute; reflexivity|]).
+  split; [repeat constructor; simpl; tauto|].
   split.
   - exists (firstn 19 ex_hist), 2, (skipn 20 ex_hist). split; vm_compute; reflexivity.
   - intros (pre & a & post & Heq & Hok). vm_compute in Heq.
